@@ -5,7 +5,7 @@ CFG = {
     "check_vo": "theories/Check/C11.vo", "prop_vo": "theories/Properties/C11.vo",
     "prop_file": "theories/Properties/C11.v",
     "theory_files": ["theories/Graph/Nodes.v", "theories/Graph/NodesProofs.v", "theories/Graph/NodesMore.v",
-                     "theories/Graph/NodesLazy.v", "theories/Graph/NodesLazyProofs.v"],
+                     "theories/Graph/NodesLazy.v", "theories/Graph/NodesLazyProofs.v", "theories/Graph/NodesLazyHist.v"],
     "level_text": "Coq theorems about an executable model of nodes.Struct (Value/Outdated/process/SetInput/Dependencies) and "
                   "parameter nodes, for every history of SetParam/Connect/Disconnect/Read from the unconnected graph on every "
                   "DAG: a read returns the from-scratch value of the current wiring and parameters, under EVERY dependency "
@@ -20,7 +20,7 @@ CFG = {
                   "of ALL nodes after EVERY operation) and by a direct oracle on the implementation's output "
                   "(freshness incl. panic outcome, executions only when the cone was touched, version = executions, State() of every "
                   "node = touched-since-last-execution)",
-    "level_note": "Processors that skip inputs (repeat.LineNodeData, extrude.ScrewNodeData; repaired by /repo 6677351): modelled (Graph/NodesLazy.v: reading discipline, depUnread, repaired Outdated()), PARTIAL proof only — the soundness of skipping an unread dependency (induction step of freshness) and a computed witness; the history-level theorems are about processors that read every port (for which the repaired code is unchanged); histories over skipping processors are judged by the harness on the Go side (from-scratch value, executions only after a change in the cone, version = executions, node read reports Processed). Totality of reads and three-outcome freshness (value / error-value / panic, both directions) are proved; the panic theorems assume a stable enumeration order (any-order: value direction only). Trusted: Coq kernel + vm_compute; hand-written model tied by differential correspondence only (generator "
+    "level_note": "Processors that skip inputs (repeat.LineNodeData, extrude.ScrewNodeData; repaired by /repo 6677351) are modelled (Graph/NodesLazy.v: reading discipline = ports in declaration order until a function of the values read says stop, depUnread, repaired Outdated()) and PROVED at history level (Graph/NodesLazyHist.v): read_fresh_skipping_processors (any depth, any single enumeration order) and exec_only_if_read_cone_changed_skipping_processors_partial (an up-to-date node, e.g. the node read, neither runs nor goes stale while no edit targets its READ cone; partial: not yet shown that every node executed as an input of another read ends up to date, Version() = executions not restated for lrun); their histories are CLazy cases: corr_ok runs lrun / lvalue / lstale on the same operations (Version / State / executions of all nodes after every operation), prop_ok judges freshness, executions only after a change in the cone, the node read Processed. Totality of reads and three-outcome freshness (value / error-value / panic, both directions) are proved; the panic theorems assume a stable enumeration order (any-order: value direction only). Trusted: Coq kernel + vm_compute; hand-written model tied by differential correspondence only (generator "
                   "quality bounds it); node values are ints and processors are harness-defined (order-sensitive polynomial "
                   "hash); the theorems quantify over arbitrary processor functions that read every input port in "
                   "declaration order; cycles are outside the property (the Go code does not terminate on them)",
